@@ -422,7 +422,12 @@ pub fn run_server_grid(cfg: &ScenCfg, out: &mut RunOut) {
                 } else {
                     "role_less_certificate_admitted"
                 };
-                out.violate("C09", rule, format!("{}: the peer must be refused but received {} (version {:?}); journal {:?}", desc, hex(&r.app_bytes), r.version, j));
+                let d = format!("{}: the peer must be refused but received {} (version {:?}); journal {:?}", desc, hex(&r.app_bytes), r.version, j);
+                out.violate("C09", rule, d.clone());
+                if rule == "role_less_certificate_admitted" {
+                    // requests were served without the authorization handler ever being asked
+                    out.violate("C08", rule, d);
+                }
             }
         }
     }
@@ -1648,7 +1653,11 @@ pub fn run_server_history(cfg: &ScenCfg, out: &mut RunOut) {
                     } else {
                         "role_less_certificate_admitted"
                     };
-                    out.violate("C09", rule, format!("{}: the peer must be refused but received {} (version {:?}); handler calls {:?}", desc, hex(&r.app_bytes), r.version, j));
+                    let d = format!("{}: the peer must be refused but received {} (version {:?}); handler calls {:?}", desc, hex(&r.app_bytes), r.version, j);
+                    out.violate("C09", rule, d.clone());
+                    if rule == "role_less_certificate_admitted" {
+                        out.violate("C08", rule, d);
+                    }
                     break;
                 }
             }
